@@ -345,6 +345,107 @@ pub fn filter_diagnostics(
     new_diagnostics
 }
 
+/// Verification hooks (compiled only with `--cfg selene_verif`): plain-data views of the private
+/// filter machinery, so that a harness can drive `filter_diagnostics` with arbitrary diagnostics.
+#[cfg(selene_verif)]
+pub mod verif {
+    use super::*;
+
+    pub struct FilterDump {
+        pub global: bool,
+        pub lint: String,
+        pub variation: &'static str,
+        pub comment_range: (usize, usize),
+        pub range: (usize, usize),
+    }
+
+    fn variation_name(variation: LintVariation) -> &'static str {
+        match variation {
+            LintVariation::Allow => "allow",
+            LintVariation::Deny => "deny",
+            LintVariation::Warn => "warn",
+        }
+    }
+
+    pub fn parse(comment: &str) -> Option<Vec<(bool, String, &'static str)>> {
+        parse_comment(comment).map(|configurations| {
+            configurations
+                .into_iter()
+                .map(|configuration| {
+                    (
+                        configuration.global,
+                        configuration.lint,
+                        variation_name(configuration.variation),
+                    )
+                })
+                .collect()
+        })
+    }
+
+    pub fn filter_ranges(ast: &Ast) -> Vec<Result<FilterDump, (String, (u32, u32))>> {
+        get_filter_ranges(ast)
+            .into_iter()
+            .map(|thing| match thing {
+                Ok(filter) => Ok(FilterDump {
+                    global: filter.configuration.global,
+                    lint: filter.configuration.lint,
+                    variation: variation_name(filter.configuration.variation),
+                    comment_range: filter.comment_range,
+                    range: filter.range,
+                }),
+                Err(diagnostic) => Err((diagnostic.message, diagnostic.primary_label.range)),
+            })
+            .collect()
+    }
+
+    pub fn first_code_range(ast: &Ast) -> Option<(usize, usize)> {
+        first_code(ast).map(|(start, end)| (start.bytes(), end.bytes()))
+    }
+
+    /// One entry per `visit_node` call: visitor type, node range, leading comment trivia.
+    pub type VisitEvent = (String, Option<(usize, usize)>, Vec<(usize, usize, String)>);
+
+    #[derive(Default)]
+    struct EventVisitor {
+        events: Vec<VisitEvent>,
+    }
+
+    impl NodeVisitor for EventVisitor {
+        fn visit_node(&mut self, node: &dyn Node, visitor_type: VisitorType) {
+            let comments = node
+                .surrounding_trivia()
+                .0
+                .into_iter()
+                .filter_map(|trivia| match trivia.token_type() {
+                    TokenType::SingleLineComment { comment } => Some((
+                        trivia.start_position().bytes(),
+                        trivia.end_position().bytes(),
+                        comment.to_string(),
+                    )),
+                    TokenType::MultiLineComment { comment, .. } => Some((
+                        trivia.start_position().bytes(),
+                        trivia.end_position().bytes(),
+                        comment.to_string(),
+                    )),
+                    _ => None,
+                })
+                .collect();
+
+            self.events.push((
+                format!("{visitor_type:?}"),
+                node.range().map(|(start, end)| (start.bytes(), end.bytes())),
+                comments,
+            ));
+        }
+    }
+
+    pub fn visit_events(ast: &Ast) -> Vec<VisitEvent> {
+        let mut visitor = EventVisitor::default();
+        visitor.visit_nodes(ast);
+        visitor.events
+    }
+}
+
 #[cfg(test)]
 mod tests {
     use crate::{
